@@ -302,7 +302,21 @@ def job_needles(res, ns):
         if timed_check(sol, res) == z3.unsat: res.ob(True, 'ground', f'isprime({n}) == {int(py_isprime(n))}')
         else: confirm(res, PID, HARNESS, 'h_isprime', [('i32', n)], 'i32', 'isprime', ORACLES, f'isprime:needle:{n}', f'isprime({n}) returns {r}, definition says {int(py_isprime(n))}')
 
-JOBFNS = {'needles': job_needles, 'history': job_history, 'isprime16': job_isprime16, 'factor_small': job_factor_small, 'primes_small': job_primes_small, 'guard': job_guard, 'pow2': job_pow2}
+def job_pow2_points(res, ks):
+    """ground obligations around every power of two (2^k - 1, 2^k, 2^k + 1, 2^k + 2^(k-24), 2^k + 2^(k-23) + 1): nextpow2 / ispow2 through the interpreted code, independent of how the function is written"""
+    mod, so = load(HARNESS)
+    for k in ks:
+        for m_ in sorted({(1 << k) - 1, 1 << k, (1 << k) + 1, (1 << k) + (1 << max(k - 24, 0)), (1 << k) + (1 << max(k - 23, 0)) + 1, 3 << max(k - 1, 0)}):
+            if not (1 <= m_ < 2 ** 31): continue
+            for fn, exp in (('h_nextpow2', (m_ - 1).bit_length()), ('h_ispow2', int((m_ & (m_ - 1)) == 0))):
+                m = Machine(mod)
+                try: r = m.call('@' + fn, [m_])
+                except (UB, Throw, Unsupported) as e: res.absorb(m); res.inc(f'{fn}({m_}): {type(e).__name__} {str(e)[:80]}'); continue
+                res.absorb(m); sol = z3.Solver(); sol.add(z3.Not(z3.BoolVal(sgn(r, 32) == exp)))
+                if timed_check(sol, res) == z3.unsat: res.ob(True, 'ground', f'{fn[2:]}({m_}) == {exp}')
+                else: confirm(res, PID, HARNESS, fn, [('i32', m_)], 'i32', fn[2:], ORACLES, f'{fn[2:]}:point:2^{k}', f'{fn[2:]}({m_}) returns {sgn(r, 32)}, expected {exp}')
+
+JOBFNS = {'pow2_points': job_pow2_points, 'needles': job_needles, 'history': job_history, 'isprime16': job_isprime16, 'factor_small': job_factor_small, 'primes_small': job_primes_small, 'guard': job_guard, 'pow2': job_pow2}
 
 def selftest(st):
     mod, so = load(HARNESS)
@@ -340,6 +354,7 @@ def main(tier, seed):
     jobs += [(f'nextprime history {f}', 'history', dict(first=f, lo=lo, hi=lo + 128), W1) for f in (1000, 300) for lo in (0, 128, 256)]
     jobs += [('guard:isprime', 'guard', dict(fn='isprime'), 600), ('guard:factor', 'guard', dict(fn='factor'), 600)]
     jobs += [('nextpow2', 'pow2', dict(fn='nextpow2'), 600), ('ispow2', 'pow2', dict(fn='ispow2'), 600)]
+    jobs += [(f'pow2 points k={k0}..', 'pow2_points', dict(ks=list(range(k0, min(k0 + 8, 31)))), 300) for k0 in (0, 8, 16, 24)]
     return run_property(PID, tier, HARNESS, jobs, JOBFNS,
         level_text='Bounded symbolic execution of the compiled isprime/factor/primes/nextprime/nextpow2/ispow2 with the argument a 32-bit bit-vector; every feasible '
                    'path is compared by z3 with the number-theoretic definition; the sqrt(n) loop guard is checked for every 32-bit (n, d) by one inductive step '
